@@ -159,10 +159,15 @@ func (d *dnode) render(b *strings.Builder, ind string) {
 }
 
 func (d *dnode) renderCore(b *strings.Builder, ind string) {
-	if d.opd || d.aux {
+	if d.opd {
 		return
 	}
-	b.WriteString(ind + d.kind + " " + d.name + " " + d.core + "\n")
+	if d.aux {
+		// the tree of an rpc's input / output or of a notification: a label, then its nodes
+		b.WriteString(ind + d.kind + " " + d.name + "\n")
+	} else {
+		b.WriteString(ind + d.kind + " " + d.name + " " + d.core + "\n")
+	}
 	for _, k := range d.kids {
 		k.renderCore(b, ind+" ")
 	}
@@ -415,9 +420,15 @@ func runYFilter(c Case) string {
 	}
 	if ops := carr(c, "ops"); len(ops) > 0 {
 		// (kept only where the module still compiles with them: which error comes first is the data tree's business)
-		end := strings.LastIndex(texts[0], "}")
-		with := texts[0][:end] + renderOps(ops) + texts[0][end:]
-		rest := append([]string{with}, texts[1:]...)
+		mi := 0 // (the factored form comes with module b first)
+		for i, t := range texts {
+			if strings.HasPrefix(t, "module m ") {
+				mi = i
+			}
+		}
+		end := strings.LastIndex(texts[mi], "}")
+		rest := append([]string{}, texts...)
+		rest[mi] = texts[mi][:end] + renderOps(ops) + texts[mi][end:]
 		if _, err := compileAll(rest...); err == nil {
 			texts = rest
 		}
